@@ -35,6 +35,20 @@ PID = "C13"
 MODULES = ["OpacusLean.Props.C13"]
 THEOREMS = [
     "Opacus.C13.packed_forward_dir_refines_spec",
+    "Opacus.C13.packed_reverse_dir_refines_spec",
+    "Opacus.C13.packed_layer_refines_spec",
+    "Opacus.C13.padded_layer_refines_spec",
+    "Opacus.C13.packed_refines_spec",
+    "Opacus.C13.padded_refines_spec",
+    "Opacus.C13.seq_lengths_roundtrip",
+    "Opacus.C13.seq_lengths_reversed",
+    "Opacus.C13.seq_lengths_cover",
+    "Opacus.C13.unsort_sort_id",
+    "Opacus.C13.state_dict_keys_eq_torch",
+    "Opacus.C13.state_dict_alias_and_shape",
+    "Opacus.C13.rnn_cell_equation",
+    "Opacus.C13.lstm_cell_equations",
+    "Opacus.C13.gru_cell_equation",
 ]
 RULE = (
     "case = (kind in {tanh,relu,gru,lstm}, I, H, num_layers 1-3, bidirectional, bias, batch_first, padded | packed sorted | packed unsorted, "
@@ -577,6 +591,84 @@ def csl_oracle(case):
     return None
 
 
+def err_corr(ctx):
+    """error branches of the model (`none` = "the code raises"): ill-formed PackedSequence fields and an
+    empty time axis.  Outside the property (torch.nn rejects them too); they pin the model's `none`."""
+    rng = ctx.rng
+    cases = []
+    for _ in range(ctx.n(16, 120)):
+        c = gen_case(rng, mode="int", kind="relu", grid={"inp": "pack_sorted", "init": 0, "L": rng.choice([1, 2]), "bf": 0})
+        if c["B"] < 2:
+            continue
+        x, xin, st = make_input(c)
+        bs = xin.batch_sizes.tolist()
+        data = xin.data
+        what = rng.choice(["data-short", "data-long", "batch-sizes-non-monotone", "batch-sizes-non-monotone", "sorted-idx-out-of-range", "well-formed"])
+        if what == "batch-sizes-non-monotone" and (len(bs) < 2 or bs[0] == bs[-1]):
+            what = "data-short"
+        si = ui = None
+        if what == "data-short":
+            data = data[:-1]
+        elif what == "data-long":
+            data = torch.cat([data, data[:1]])
+        elif what == "batch-sizes-non-monotone":
+            bs = bs[1:] + bs[:1]
+        elif what == "sorted-idx-out-of-range":
+            c["init"] = 1
+            LP = c["L"] * (2 if c["bidir"] else 1)
+            c["h0"] = [rng.randint(-2, 2) for _ in range(LP * c["B"] * c["H"])]
+            x, _, st = make_input(c)
+            si = list(range(c["B"]))
+            si[-1] = c["B"]
+            ui = list(range(c["B"]))
+        cases.append((c, what, data, bs, si, ui, st))
+    # empty time axis, padded
+    c0 = gen_case(rng, mode="int", kind="relu", grid={"inp": "pad", "init": 0, "bf": 0, "L": 1})
+    lines = []
+    for c, what, data, bs, si, ui, st in cases:
+        e = enc("int")
+        lines.append(f"fwd {head(c)} pack {lst(bs, str)} {lst(si or [], str)} {lst(ui or [], str)} {lst(fl(data), e)} {init_part(c)}")
+    lines.append(f"fwd {head(c0)} pad 0 0 {c0['B']} 0 0")
+    rep = ctx.lean_driver("C13", lines)
+    for (c, what, data, bs, si, ui, st), r in zip(cases, rep):
+        t, d = build(c)
+        try:
+            p = PackedSequence(data, torch.tensor(bs), None if si is None else torch.tensor(si), None if ui is None else torch.tensor(ui))
+            with torch.no_grad():
+                od, hd, cd, _ = run_layer(d, c, p, st)
+            impl = "ok"
+            vals = [fl(od), fl(hd)]
+        except Exception:
+            impl, vals = "err", None
+        ctx.case(("err", what, tuple(bs), c["L"], c["bidir"]), nontrivial=what != "well-formed", kind="error-branch:" + what)
+        model = "err" if r == "err" else ("ok" if r.startswith("ok") else r)
+        good = impl == model and (impl == "err" or all(same(a, b, True) for a, b in zip(vals, parse_reply(r, "int"))))
+        if good:
+            ctx.validated()
+        else:
+            ctx.mismatch("error-branches", {"what": what, "batch_sizes": bs, "cfg": {k: c[k] for k in ("I", "H", "L", "bidir", "bias")}}, impl, r[:300], oracle=None)
+    t, d = build(c0)
+    try:
+        with torch.no_grad():
+            d(torch.zeros(0, c0["B"], c0["I"], dtype=torch.float64))
+        impl = "ok"
+    except Exception:
+        impl = "err"
+    ctx.case(("err", "T=0"), nontrivial=True, kind="error-branch:T=0")
+    if impl == rep[-1]:
+        ctx.validated()
+    else:
+        ctx.mismatch("error-branches", {"what": "T=0 padded"}, impl, rep[-1][:300], oracle=None)
+
+
+def report(ctx, res, c):
+    """at most two replays per failure key"""
+    seen = ctx.extra.setdefault("failure_keys", {})
+    seen[res[0]] = seen.get(res[0], 0) + 1
+    if seen[res[0]] <= 2:
+        ctx.property_failure(res[0], res[1], dict(res[2], failing_input=c))
+
+
 # --------------------------------------------------------------------------- run
 def grid_cases(rng, kinds):
     out = []
@@ -597,9 +689,10 @@ def run(ctx):
             res = oracle(c)
             ctx.count("corpus")
             if res:
-                ctx.property_failure(res[0], res[1], dict(res[2], failing_input=c))
+                report(ctx, res, c)
         names_corr(ctx)
         csl_corr(ctx)
+        err_corr(ctx)
         cases = [gen_case(ctx.rng) for _ in range(ctx.n(150, 1500))]
         run_cases(ctx, cases)
         # failing-input search on the real code (no model involved)
@@ -611,7 +704,7 @@ def run(ctx):
             res = oracle(c)
             ctx.count("search:dp-vs-torch")
             if res:
-                ctx.property_failure(res[0], res[1], dict(res[2], failing_input=c))
+                report(ctx, res, c)
     for kind in ("lstm", "gru", "tanh"):
         res = dtype_oracle(kind)
         ctx.count("search:dtype")
